@@ -101,6 +101,12 @@ def csvRowOk (L : Lib) : List Value → List Bytes → Bool
   | v :: vs, f :: fs => csvCellOk L v f && csvRowOk L vs fs
   | _, _ => false
 
+/-- every record of a decoded `-o csv` output is its row -/
+def csvRowsOk (L : Lib) : List (List Value) → List (List Bytes) → Bool
+  | [], [] => true
+  | r :: rs, c :: cs => csvRowOk L r c && csvRowsOk L rs cs
+  | _, _ => false
+
 /-! every string of the row (and the library's texts) is well-formed UTF-8 -/
 mutual
 def utf8Value (L : Lib) : Value → Bool
